@@ -72,6 +72,10 @@ func writeTemplateFacts(repo, outPath string) {
 		{"MarshalOneOf", "marshalOneofKinds", "kinds with an arm in `MarshalOneOf`"},
 		{"UnmarshalOneOf", "unmarshalOneofKinds", "kinds with an arm in `UnmarshalOneOf`"},
 		{"UnmarshalNumber", "unmarshalNumberKinds", "kinds with an arm in the if/else chain of `UnmarshalNumber`"},
+		{"SizeOfExtension", "sizeExtensionKinds", "kinds with an arm in `SizeOfExtension` (singular and repeated chains)"},
+		{"MarshalExtension", "marshalExtensionKinds", "kinds with an arm in `MarshalExtension` (singular and repeated chains)"},
+		{"UnmarshalExtension", "unmarshalExtensionKinds", "kinds with an arm in `UnmarshalExtension` (singular)"},
+		{"UnmarshalRepeatedExtension", "unmarshalRepeatedExtensionKinds", "kinds with an arm in `UnmarshalRepeatedExtension`"},
 	} {
 		body, ok := defs[d.def]
 		if !ok {
@@ -82,6 +86,18 @@ func writeTemplateFacts(repo, outPath string) {
 		fmt.Fprintf(&b, "/-- %s -/\ndef %s : List String := %s\n\n", d.doc, d.lean, leanStrList(ks))
 		fmt.Printf("fact F11 %s = %v\n", d.lean, ks)
 	}
+	// the three extension snippets branch on the cardinality: a repeated extension holds a slice (finding B32)
+	var repArms []string
+	for _, name := range []string{"SizeOfExtension", "MarshalExtension", "UnmarshalExtension"} {
+		body := defs[name]
+		has := strings.Contains(body, `eq (.Field.Desc.Cardinality | string) "repeated"`)
+		loops := strings.Contains(body, "range extVals") || strings.Contains(body, `template "UnmarshalRepeatedExtension"`)
+		repArms = append(repArms, fmt.Sprintf("(%q, %s)", name, leanBool(has && loops)))
+	}
+	rep := defs["UnmarshalRepeatedExtension"]
+	appends := strings.Contains(rep, "csproto.GetExtension(m, E_") && strings.Contains(rep, "extVals = append(extVals,") && strings.Contains(rep, "csproto.SetExtension(m, E_") && strings.Contains(rep, "case csproto.WireTypeLengthDelimited:")
+	fmt.Fprintf(&b, "/-- (extension snippet, it has an arm of its own for a repeated extension that walks / appends to the slice) -/\ndef extensionRepeatedArms : List (String × Bool) := [%s]\n\n", strings.Join(repArms, ", "))
+	fmt.Fprintf(&b, "/-- `UnmarshalRepeatedExtension` loads the list held so far, appends (one value or a packed run) and stores it back -/\ndef repeatedExtensionAppends : Bool := %s\n\n", leanBool(appends))
 	// EncodeNested call sites: is the returned error looked at?
 	var sites []string
 	reNested := regexp.MustCompile(`(?m)^(.*)enc\.EncodeNested\(`)
